@@ -6,6 +6,7 @@ use crate::cfg::{build, guarded, Case, Cfg};
 use crate::gen::*;
 use crate::runner::{Ctx, Stats, Tier};
 use grex::RegExpBuilder;
+use proptest::prelude::*;
 use serde_json::json;
 use std::io::Read;
 use std::process::{Command, Stdio};
@@ -114,6 +115,21 @@ pub fn big_input(kind: &str, n: usize) -> (Vec<String>, Cfg) {
             cfg.no_start = true;
             cfg.no_end = true;
             vec!["7".repeat(n), format!("{}x", "7".repeat(n / 2))]
+        }
+        "chain-noend" => {
+            // prefix chain with the end anchor disabled: the internal self-check has to compile an
+            // expression nested deeper than the regex crate's default nesting limit
+            cfg.no_end = true;
+            let base: Vec<char> = "abcde".chars().cycle().take(n).collect();
+            (1..=n).map(|k| base[..k].iter().collect()).collect()
+        }
+        "chain-noanchors-ix" => {
+            cfg.no_end = true;
+            cfg.no_start = true;
+            cfg.ignore_case = true;
+            cfg.verbose = true;
+            let base: Vec<char> = "aBcDe".chars().cycle().take(n).collect();
+            (1..=n).map(|k| base[..k].iter().collect()).collect()
         }
         "noanchors" => {
             cfg.no_start = true;
@@ -261,6 +277,28 @@ fn run(ctx: &mut Ctx) {
     ctx.exhaustive("abc3 subsets <=4", s4n, &|i| Case::new(s5.subset(i), Cfg::default()), &case_fn);
     ctx.exhaustive("abc3 5-subsets", n5 / step, &|i| Case::new(s5.subset(s4n + (i * step + off).min(n5 - 1)), Cfg::default()), &case_fn);
 
+    // many (21..=40) short test cases over letters whose lower-casing is refused (İ) or special, under
+    // -i: sorting / de-duplication code paths that only run for more than 20 elements
+    let total_many = ctx.tier.pick(40_000, 600_000);
+    let strat_many = move || {
+        use proptest::collection::vec;
+        (vec(vec(0u8..7, 2..=3usize), 21..=40), cfg_strategy())
+            .prop_map(|(ws, cfg)| {
+                let letters = ['İ', 'i', 'I', 'a', 'A', 'ı', 'b'];
+                let tcs: Vec<String> = ws.iter().map(|w| w.iter().map(|&i| letters[i as usize]).collect()).collect();
+                let mut cfg = cfg;
+                cfg.ignore_case = true;
+                if !cfg.escape {
+                    cfg.surrogates = false;
+                }
+                let mut c = Case::new(tcs, cfg);
+                c.extra = json!({"pool": "many-case"});
+                c
+            })
+            .boxed()
+    };
+    ctx.generated("many-case", &strat_many, total_many, &|s, c, st| case_fn(s, c, st));
+
     // generated, all flags free
     let total = ctx.tier.pick(60_000, 1_500_000);
     let max_ops = ctx.tier.pick(6, 12);
@@ -273,8 +311,8 @@ fn run(ctx: &mut Ctx) {
     // large inputs
     if ctx.failures.is_empty() {
         let sizes: Vec<(&str, usize)> = match ctx.tier {
-            Tier::Quick => vec![("chain", 120), ("long2", 300), ("periodic", 120), ("many", 1500), ("many-i-x", 600), ("noanchors", 300), ("long-class-noend", 1400), ("long-class-noanchors-r", 1400)],
-            Tier::Thorough => vec![("chain", 120), ("chain", 1000), ("chain", 5000), ("long2", 2000), ("periodic", 600), ("many", 5000), ("many-i-x", 3000), ("noanchors", 2000), ("long-class-noend", 1400), ("long-class-noend", 4000), ("long-class-noanchors-r", 3000)],
+            Tier::Quick => vec![("chain", 120), ("long2", 300), ("periodic", 120), ("many", 1500), ("many-i-x", 600), ("noanchors", 300), ("long-class-noend", 1400), ("long-class-noanchors-r", 1400), ("chain-noend", 130), ("chain-noanchors-ix", 100)],
+            Tier::Thorough => vec![("chain", 120), ("chain", 1000), ("chain", 5000), ("long2", 2000), ("periodic", 600), ("many", 5000), ("many-i-x", 3000), ("noanchors", 2000), ("long-class-noend", 1400), ("long-class-noend", 4000), ("long-class-noanchors-r", 3000), ("chain-noend", 130), ("chain-noend", 600), ("chain-noanchors-ix", 300)],
         };
         let timeout = Duration::from_secs(ctx.tier.pick(60, 600));
         let results: Vec<(Stats, Result<(), String>, (&str, usize))> = std::thread::scope(|s| {
